@@ -313,3 +313,67 @@ Definition static_get (q : request) : outcome :=
           | None => InternalError
           end
     end.
+
+(* ---------- StaticFileHandler.get_content, chunk by chunk ---------- *)
+(* The generator of get_content as a loop: `file.read(chunk_size)` with
+   chunk_size = min(remaining, 64 KiB); every non-empty chunk is yielded
+   (and written + flushed by get()); an empty read ends the loop through
+   `assert remaining == 0`.  LoopFailed = OSError on seek / AssertionError. *)
+Definition chunk_max : Z := 65536%Z.
+
+Inductive loop_result := LoopDone (cs : list (list N)) | LoopFailed | LoopOutOfFuel.
+Definition lr_cons (c : list N) (r : loop_result) : loop_result :=
+  match r with LoopDone cs => LoopDone (c :: cs) | x => x end.
+
+Fixpoint content_loop (fuel : nat) (cmax : Z) (rest : list N) (remaining : option Z) : loop_result :=
+  match fuel with
+  | O => LoopOutOfFuel
+  | S f =>
+      let chunk_size := match remaining with
+                        | Some r => if (r <? cmax)%Z then r else cmax
+                        | None => cmax
+                        end in
+      (* file.read(k): everything when k < 0 *)
+      let chunk := if (chunk_size <? 0)%Z then rest else firstn (Z.to_nat chunk_size) rest in
+      let rest' := if (chunk_size <? 0)%Z then [] else skipn (Z.to_nat chunk_size) rest in
+      match chunk with
+      | [] => match remaining with
+              | Some r => if (r =? 0)%Z then LoopDone [] else LoopFailed
+              | None => LoopDone []
+              end
+      | _ :: _ =>
+          lr_cons chunk
+            (content_loop f cmax rest'
+               (match remaining with
+                | Some r => Some (r - Z.of_nat (length chunk))%Z
+                | None => None
+                end))
+      end
+  end.
+
+Definition get_content_chunks (cmax : Z) (content : list N) (start end_ : option Z) : loop_result :=
+  match (match start with
+         | Some s => if (s <? 0)%Z then None else Some (skipn (Z.to_nat s) content)
+         | None => Some content
+         end) with
+  | None => LoopFailed
+  | Some rest =>
+      content_loop (S (S (length content))) cmax rest
+        (match end_ with Some e => Some (e - py_or start 0)%Z | None => None end)
+  end.
+
+(* the sequence of chunks get() hands to write()+flush() for request q *)
+Definition static_get_chunks (cmax : Z) (q : request) : loop_result :=
+  if should_return_304 (q_etag q) (q_inm q) (q_ims q) (q_mtime q) then LoopDone []
+  else
+    let request_range :=
+      match q_range q with
+      | Some (c :: h) => parse_request_range (c :: h)
+      | _ => None
+      end in
+    match range_block request_range (Z.of_nat (length (q_content q))) with
+    | Unsatisfiable => LoopDone []
+    | Serve _ start end_ =>
+        if q_head q then LoopDone []
+        else get_content_chunks cmax (q_content q) start end_
+    end.
